@@ -393,9 +393,9 @@ func cmdRace(args []string) {
 func raceLimits(sum *raceSummary, dur time.Duration) {
 	const mib = 1 << 20
 	cfg := simvk.Config{
-		API:   10,
-		Heaps: []simvk.HeapCfg{{Size: 64 * mib, DeviceLocal: true}},
-		Types: []simvk.TypeCfg{{Heap: 0, Flags: simvk.PropDeviceLocal}, {Heap: 0, Flags: simvk.PropDeviceLocal | simvk.PropHostVisible | simvk.PropHostCoherent}},
+		API:         10,
+		Heaps:       []simvk.HeapCfg{{Size: 64 * mib, DeviceLocal: true}},
+		Types:       []simvk.TypeCfg{{Heap: 0, Flags: simvk.PropDeviceLocal}, {Heap: 0, Flags: simvk.PropDeviceLocal | simvk.PropHostVisible | simvk.PropHostCoherent}},
 		Granularity: 1, AtomSize: 1, MaxAllocCount: 1 << 20, Log: false, TableSize: 1 << 16,
 	}
 	dev := simvk.NewDevice(cfg)
@@ -421,7 +421,7 @@ func raceLimits(sum *raceSummary, dur time.Duration) {
 				defer wg.Done()
 				defer func() { _ = recover() }()
 				<-startCh
-				mr := core1_0.MemoryRequirements{Size: mib, Alignment: 256, MemoryTypeBits: uint32(1 + i%2*2) | 1}
+				mr := core1_0.MemoryRequirements{Size: mib, Alignment: 256, MemoryTypeBits: uint32(1+i%2*2) | 1}
 				_, err := alloc.AllocateMemory(&mr, vam.AllocationCreateInfo{Flags: vam.AllocationCreateDedicatedMemory}, &slots[i])
 				okv[i] = err == nil
 				if b := int64(dev.HeapBytes(0)); b > peak.Load() {
